@@ -13,6 +13,14 @@
       order     any sibling order of the input gives the same reply (verdict, error, resulting tree)
       routes    built + validated, parsed with validation from XML and from JSON, parsed then validated separately: same
                 verdict, same first error (kind, app-tag), same resulting tree; also with the document's siblings shuffled
+      ops       the same data definitions as rpc input / reply output / notification content (lyd_parse_op + lyd_validate_op, XML and
+                JSON): accepted  <=>  the specification holds on the all-state variant of the schema.  The variant is computed by the
+                model (`Valid.stateVariant`, LyModel/Valid/Ops.lean; theorems `ops_relaxes`, `ops_exact_difference`, `stateVariant_*`,
+                `validate_iff_valid_ops`, `ops_noState` of Props/C02) from the original schema; the generator's own transformation
+                (validgen.state_variant) is compared with it per schema.  The model of lyd_validate_op (`Valid.opsValidate`) follows
+                three facts read from the C source by tools/extractors/ops.py (Generated/OpsFacts.lean: config ignored inside
+                operations, leaf-lists without LYS_CONFIG_W may repeat, lyd_validate_new on the output siblings of a reply) and is
+                compared per route; theorem `opsValidate_current` (model = validate on the variant) builds only while the facts hold.
 Generators: random S1x schemas (validgen), instances valid by construction, one named mutation each.
 """
 import collections, json, os
@@ -30,8 +38,12 @@ ASSUMPTIONS = [
     "instances are built through the public API or parsed from XML/JSON: sibling lists in libyang's order, instances of a schema node contiguous",
     "values are given in canonical form (the mutation `bad-value` uses values outside the lexical AND value space)",
     "the specification is stated for the non-operational option sets; under LYD_VALIDATE_OPERATIONAL only the correspondence is checked",
+    "operation content: validated with no option (lyd_validate_op has none; LYD_VALIDATE_NO_STATE excluded, see theorem ops_noState); one rpc "
+    "per direction and one notification at the top level of the module, no action / nested notification; the effective ordering of lists "
+    "inside operations (output / notification: always user-ordered) is not part of the specification and not compared",
 ]
-TRUSTED = ["tools/checks/validgen.py (schema/instance generator, mutations, XML/JSON encoders)", "tools/vlib/treegen.py", "harness/treeproto.h (tree loader and canonical dump)"]
+TRUSTED = ["tools/extractors/ops.py (reads the three facts about operations from tree_schema.h, schema_compile_node.c, validation.c)",
+           "tools/checks/validgen.py (schema/instance generator, mutations, XML/JSON encoders)", "tools/vlib/treegen.py", "harness/treeproto.h (tree loader and canonical dump)"]
 
 APPTAG = {"NoMandChoice": "missing-choice", "NoMin": "too-few-elements", "NoMax": "too-many-elements", "NoUniq": "data-not-unique"}
 V_OPTS = [0, PRESENT, NO_STATE, MULTI, OPER, NO_STATE | MULTI, NO_STATE | PRESENT, OPER | MULTI]
@@ -157,8 +169,17 @@ def operations(cx, cases):
                 cx.fail(COMP, "ops: no verdict (%s / %s)" % (" ".join(r[:2]), " ".join(sp[:3])), payload(c, "ops-harness", module=vg.op_module(c.s)))
             continue
         bar = sp.index("|")
-        viol = set(sp[2:bar])
-        mroute = dict(f.split("=", 1) for f in sp[bar + 1:])
+        bar2 = sp.index("|", bar + 1)
+        viol, viol0 = set(sp[2:bar]), set(sp[bar2 + 2:])
+        mroute = dict(f.split("=", 1) for f in sp[bar + 1:bar2])
+        # theorems ops_relaxes / ops_exact_difference, evaluated: the variant's violated families are among the schema's, and only Dup can
+        # be missing; counted: instances that are invalid datastore content and valid operation content
+        if not viol <= viol0 or not (viol0 - viol) <= {"Dup"}:
+            cx.disagree(COMP, "opsspec %s: violations of the variant %s vs of the schema %s contradict ops_relaxes / ops_exact_difference"
+                        % (specl_line(c), sorted(viol), sorted(viol0)), sorted(viol0), sorted(viol))
+        cx.dist["ops:datastore %s, operation content %s" % ("valid" if not viol0 else "invalid", "valid" if not viol else "invalid")] += 1
+        if viol0 != viol:
+            cx.dist["ops:Dup of a configuration leaf-list only (family legal in an operation)"] += 1
         for i, f in enumerate(r[1:]):
             name, res = f.split("=", 1)
             misplaced = place == "swap" and not name.startswith("notif")
